@@ -1116,6 +1116,14 @@ def lookalike_operand_sweep(g, rounds):
         for x in ph + xl:
             asked += [('array', [t, x]), ('as_type_expr', [x])]
             if pr is not None and 'function_e' in g.WEIGHTS[g.profile]: asked.append(('function_e', [pr, t, x]))
+        # spellings of ONE length that agree up to an embedded NUL byte (and differ after it), as conventions, linkages and what is
+        # built on them: different spellings all the same
+        for w in (b'vec\x00A', b'vec\x00B', b'vec\x00C', b'\x00a', b'\x00b', b'ab\x00\x00', b'ab\x00\x01'):
+            cc = g.emit('calling_convention', [w]); lk = g.emit('linkage_w', [w])
+            asked += [('calling_convention', [w]), ('linkage_w', [w])]
+            if cc is not None: asked.append(('transfer_c', [cc]))
+            if lk is not None: asked.append(('transfer_l', [lk]))
+            if 'identifier_w' in g.WEIGHTS[g.profile]: asked.append(('identifier_w', [w]))
         for op, a in asked: g.emit(op, a)
         # the expression lists grow AFTER they have named template-ids (arguments are pushed as they are parsed), to different lengths
         for k, x in enumerate(xl):
